@@ -151,6 +151,73 @@ func worldSessions(w *World) {
 			return
 		}
 		switch k := r.Intn(20); {
+		case k < 7 && len(ls) >= 2 && r.Intn(3) == 0: // two sessions ask for the same free name at the same moment
+			name := names[r.Intn(len(names))]
+			if owner[name] != nil {
+				continue
+			}
+			s2 := ls[r.Intn(len(ls))]
+			for s2 == s {
+				s2 = ls[r.Intn(len(ls))]
+			}
+			w.Probe("sessions.race_for_free_name")
+			hist("race %s.reg(%s,port=%d) || %s.reg(%s,port=%d)", s.c.Name, name, portOfName(name), s2.c.Name, name, portOfName(name)+10)
+			var wg sync.WaitGroup
+			var r1, r2 M
+			var g1, g2 bool
+			wg.Add(2)
+			go func() {
+				defer wg.Done()
+				r1, g1 = s.c.register(M{"proxy_name": name, "proxy_type": "tcp", "remote_port": portOfName(name)})
+			}()
+			go func() {
+				defer wg.Done()
+				r2, g2 = s2.c.register(M{"proxy_name": name, "proxy_type": "tcp", "remote_port": portOfName(name) + 10})
+			}()
+			wg.Wait()
+			hist("  -> %s %s", jsonStr(r1), jsonStr(r2))
+			w.Check("C12.name-unique")
+			if !g1 || !g2 {
+				viol("ownership", "no-reply", "no reply to one of two concurrent registrations of %s; history: %v", name, history)
+				return
+			}
+			ok1, ok2 := mstr(r1, "error") == "", mstr(r2, "error") == ""
+			switch {
+			case ok1 && ok2:
+				viol("ownership", "duplicate-name-accepted", "two concurrent registrations of the free name %s were both accepted; history: %v", name, history)
+				return
+			case !ok1 && !ok2:
+				viol("ownership", "free-name-refused", "two concurrent registrations of the free name %s were both refused; history: %v", name, history)
+				continue
+			}
+			win, lose, lport := s, s2, portOfName(name)+10
+			if ok2 {
+				win, lose, lport = s2, s, portOfName(name)
+			}
+			// the refused client retries, a third party tries too: the name has exactly one owner as long as it lives
+			for a := 0; a < 1+r.Intn(3); a++ {
+				who := lose
+				if a > 0 && r.Intn(2) == 0 {
+					who = ls[r.Intn(len(ls))]
+				}
+				if who == win {
+					continue
+				}
+				rr, got := who.c.register(M{"proxy_name": name, "proxy_type": "tcp", "remote_port": lport})
+				hist("%s.reg(%s,port=%d) again -> %s", who.c.Name, name, lport, jsonStr(rr))
+				if got && mstr(rr, "error") == "" {
+					viol("ownership", "duplicate-name-accepted", "proxy name %s is live in session %s (won a race for it) and was accepted again for session %s; history: %v", name, win.c.Name, who.c.Name, history)
+					return
+				}
+			}
+			if ok2 {
+				// (the rest of this world expects every name on its home port)
+				win.c.CloseProxy(name)
+				syncCtl(win.c)
+			} else {
+				owner[name] = win
+				probeOwner(name, "after-race-for-name")
+			}
 		case k < 7: // register
 			name := names[r.Intn(len(names))]
 			port := portOfName(name)
